@@ -333,7 +333,13 @@ def gen_leaf(rng, ty, leaves, shapes, keysets, denoms, share=0.0):
         if rng.random() < keysets[key]:
             den = denoms[key]
             derivs[key] = [rng.choice(VALS) for _ in range(n * int(np.prod(den)))]
-    leaves.append({'ty': ty, 'shape': list(shape), 'vals': vals, 'mask': mask, 'derivs': derivs})
+    leaf = {'ty': ty, 'shape': list(shape), 'vals': vals, 'mask': mask, 'derivs': derivs}
+    if not derivs and ty in ('V', 'P', 'S') and rng.random() < 0.4:
+        # an integer-valued constant of the generic class (Vector rather than Vector3): the other operand's
+        # derivatives must come through unharmed (seeded change C06-F: they were cast to the integer dtype)
+        leaf['vals'] = [float(rng.choice([-2, -1, 1, 2, 3])) for _ in range(n)]
+        leaf['intconst'] = True
+    leaves.append(leaf)
     return {'leaf': len(leaves) - 1, 'ty': ty, 'rc': 'B'}
 
 
@@ -476,6 +482,9 @@ def build_leaf(Pm, leaf, denoms, with_derivs=True, displace=None):
             vals = vals + s * dj
     m = leaf['mask']
     mask = m if isinstance(m, bool) else np.array(m, bool).reshape(shape)
+    if leaf.get('intconst'):
+        gen = {'S': Pm.Scalar, 'V': Pm.Vector, 'P': Pm.Pair}[ty]
+        return gen(vals.astype(np.int64), mask)
     obj = cls_of(Pm, ty)(vals, mask)
     if with_derivs:
         for key, dv in leaf['derivs'].items():
